@@ -33,6 +33,7 @@ type NodeSim struct {
 	Untrusted map[string]*PeerModel
 	Start *WBlock // start block (nil: never found)
 	SubData [][]byte
+	KeepNodeWrites bool // keep what the node wrote on every connection (time, bytes)
 	SubSetup func(node *spynode.Node) // alternative to SubData: arbitrary subscription calls before Run
 
 	Received []WireEvent // SUT -> peers
@@ -147,6 +148,7 @@ func (ns *NodeSim) dial(network, addr string, timeout time.Duration) (net.Conn, 
 	nodeSide, peerSide := NewConnPair(link, "node->"+addr, addr)
 	ns.Dials = append(ns.Dials, DialEvent{At: ns.S.Now(), Addr: addr, OK: true})
 	simrt.Eventf("dial", "%s connected", addr)
+	nodeSide.KeepWrites = ns.KeepNodeWrites
 	p.accept(peerSide, nodeSide)
 	return nodeSide, nil
 }
